@@ -325,6 +325,9 @@ def run_impl(history, workdir, tag="c"):
             be.inj.close_all()
             o["sql_state"] = probe(be.sql)
             be.inj.close_all()
+            extra = None
+            if op["k"] in ("register", "remove", "set_metadata"):
+                extra = side_probes(be, op, ref, o["sql_state"])
             failed = o["sql"] == ["storage"]
             if failed:
                 o["mem"] = None
@@ -335,6 +338,8 @@ def run_impl(history, workdir, tag="c"):
             if violation is None:
                 new_ref, exp = ref_step(ref, op, uni)
                 v = judge(op, st.get("fail"), o, ref, new_ref, exp, before_n)
+                if v is None and extra:
+                    v = extra
                 if v:
                     violation = (idx,) + v
                 if not failed:
@@ -342,6 +347,33 @@ def run_impl(history, workdir, tag="c"):
     finally:
         be.close()
     return obs, violation
+
+
+def side_probes(be, op, ref, listing):
+    """per-storage-object caches: (a) a freshly opened SqlStorage on the same file must list what the long-lived
+    object lists; (b) lookup() on the long-lived object must agree with its own listing for the names the
+    operation could have touched.  Not operations of the history (no injection, not counted)."""
+    if listing[0] != "dict":
+        return None
+    try:
+        fresh = be.N.NameServer(be.N.SqlStorage(be.dbfile))
+        fl = probe(fresh)
+    finally:
+        be.inj.close_all()
+    if fl != listing:
+        return ("fresh-storage-differs:" + op["k"], "after %s the long-lived SqlStorage lists %s but a freshly opened one on the same file lists %s" % (short(op), short(listing), short(fl)))
+    have = {e[0]: e for e in listing[1]}
+    names = []
+    if op.get("name") is not None:
+        names.append(op["name"])
+    names += [n for n in sorted(ref) if n not in have][:2]        # entries that just disappeared
+    for n in names[:3]:
+        got = call(be.sql, {"k": "lookup", "name": n, "wm": True})
+        be.inj.close_all()
+        want = ["uri", have[n][1], have[n][2]] if n in have else ["naming", "unknown"]
+        if got != want:
+            return ("lookup-differs-from-listing:" + op["k"], "after %s lookup(%r) on the sqlite back-end answers %s but its listing says %s" % (short(op), n, short(got), short(want)))
+    return None
 
 
 def short(o):
@@ -508,6 +540,48 @@ REGEX_POOL = ["a", "A", "a.c", "a.*", ".*", "", "abc$", "[aA]bc", "a\\.c", "(a",
               "\\w+$", "(?i)abc", "ä", ".*c$", "a+", "*a", "x"]
 
 
+def rx_piece(rng, names):
+    """one alternative built from the names of the history: literal run, anchored, quantified head,
+    optional group, character class"""
+    n = rng.choice(names) or "a"
+    cut = rng.randint(1, len(n))
+    p = n[:cut]
+    r = rng.random()
+    if r < 0.28:
+        return re.escape(p)
+    if r < 0.42:
+        return re.escape(n) + "$"
+    if r < 0.52:
+        return re.escape(p) + "?"                       # last character of the head optional
+    if r < 0.58:
+        return re.escape(p) + "*"
+    if r < 0.66:
+        return "(?:" + re.escape(p) + ")?" + re.escape(n[cut:cut + 1] or "x")   # optional group
+    if r < 0.76:
+        c = p[0]
+        return "[" + re.escape(c.lower()) + re.escape(c.upper()) + "]" + re.escape(p[1:])   # character class
+    if r < 0.82:
+        return "^" + re.escape(p)
+    if r < 0.88:
+        return re.escape(p[:-1]) + "."
+    if r < 0.94:
+        return "(" + re.escape(p) + "|" + re.escape(rng.choice(names) or "x") + ")"
+    return re.escape(p) + "{0}" + re.escape(rng.choice(names))
+
+
+def gen_regex(rng, names):
+    """a pattern whose set of matching names is in general NOT a prefix class: top-level alternation of 1..3 pieces"""
+    k = rng.choice([1, 2, 2, 2, 3])
+    return "|".join(rx_piece(rng, names) for _ in range(k))
+
+
+def pick_regex(rng, names, base):
+    r = rng.random()
+    if r < 0.5:
+        return gen_regex(rng, names)
+    return rng.choice(REGEX_POOL + [re.escape(base)])
+
+
 def reg(name, uri=None, safe=False, meta=None):
     return {"k": "register", "name": name, "uri": uri or URIS[0], "safe": safe, "meta": meta}
 
@@ -570,11 +644,11 @@ def gen_history(rng, nops, fail_rate):
             elif mode < 0.75:
                 op["prefix"] = variant(rng, base)
             elif mode < 0.9:
-                op["regex"] = rng.choice(REGEX_POOL + [re.escape(base)])
+                op["regex"] = pick_regex(rng, registered or names, base)
             else:   # combinations
                 op["name"] = rng.choice([None, name, ""])
                 op["prefix"] = rng.choice([None, "", variant(rng, base)])
-                op["regex"] = rng.choice([None, "", rng.choice(REGEX_POOL)])
+                op["regex"] = rng.choice([None, "", pick_regex(rng, registered or names, base)])
         elif r < 0.56:
             op = {"k": "set_metadata", "name": rng.choice([name, rng.choice(registered or names)]), "meta": gen_tags(rng, tags)}
         elif r < 0.66:
@@ -587,7 +661,7 @@ def gen_history(rng, nops, fail_rate):
             if mode < 0.55:
                 op["prefix"] = variant(rng, base)
             elif mode < 0.8:
-                op["regex"] = rng.choice(REGEX_POOL + [re.escape(base)])
+                op["regex"] = pick_regex(rng, registered or names, base)
             elif mode < 0.88:
                 op["prefix"] = rng.choice(["", "a"])
                 op["regex"] = rng.choice(["", "a"])
@@ -636,6 +710,12 @@ def targeted():
     for m in reads:
         for k in range(0, 5):
             out.append({"steps": setup + [{"op": m, "fail": k}]})
+    # regexes whose matching names are not a prefix class (alternation, optional pieces, classes, anchors)
+    for rx in ["ab|A", "ab|Pyro", "a_|Abd$", "zzz|A|a_*c", "abc?|Ab", "ab*c|a_", "(?:ab)?A", "[aA]b", "a|", "abc$|^Abd|a_c", "x|ab|Pyro\\.Name"]:
+        for wm in (False, True):
+            out.append({"steps": setup + [{"op": {"k": "list", "prefix": None, "regex": rx, "wm": wm}}]})
+        out.append({"steps": setup + [{"op": {"k": "remove", "name": None, "prefix": None, "regex": rx}},
+                                      {"op": {"k": "list", "prefix": None, "regex": None, "wm": True}, "reopen": True}]})
     # known deviations
     out.append({"steps": setup + [{"op": {"k": "list", "prefix": "A", "regex": None, "wm": False}}]})
     out.append({"steps": setup + [{"op": {"k": "list", "prefix": "a_", "regex": None, "wm": True}}]})
@@ -649,7 +729,7 @@ def targeted():
 def gen_cases(ctx):
     rng = ctx.rng
     cases = []
-    for _ in range(ctx.n(1500, 10000)):
+    for _ in range(ctx.n(1250, 10000)):
         nops = rng.choice([1, 2, 3, 5, 8, 8, 12, 12, 20, 30, 40])
         cases.append(gen_history(rng, nops, rng.choice([0.0, 0.0, 0.1, 0.3])))
     if not ctx.quick:
